@@ -10,6 +10,7 @@ import (
 	"sync"
 	"time"
 
+	"github.com/Shopify/sarama"
 	"verif/harness/hlib"
 )
 
@@ -24,9 +25,10 @@ type srvReq struct {
 }
 
 type frameInfo struct {
-	body  []byte // body the server put after the header
-	cid   int32  // correlation id in the header
-	token int    // token in the body (-1: not derived from a request)
+	body  []byte   // body the server put after the header
+	cid   int32    // correlation id in the header
+	token int      // token in the body (-1: not derived from a request)
+	marks [][]byte // the raw byte fields of the body (responses with byte fields), in extraction order
 }
 
 // transport of the server side
@@ -43,6 +45,7 @@ type server struct {
 	maxResp int32
 	maxOpen int
 	callers int
+	rtMs    int
 	rng     *hlib.Rand
 
 	mu       sync.Mutex
@@ -121,8 +124,9 @@ func (s *server) next() (srvReq, bool) {
 	}
 }
 
-func (s *server) body(key int16, token, serial int) []byte {
+func (s *server) body(key int16, token, serial int) ([]byte, [][]byte) {
 	var b []byte
+	var marks [][]byte
 	switch key {
 	case 3: // MetadataResponse v0: brokers [ (id, host, port) ], topics []
 		b = append(b, be32(1)...)
@@ -141,6 +145,42 @@ func (s *server) body(key int16, token, serial int) []byte {
 		b = append(b, be32(int32(token))...)
 		b = append(b, be16(int16(serial))...)
 		b = append(b, 0, 1, 0)
+	case 1: // FetchResponse v0, one uncompressed message whose key and value are markers
+		k, v := marker(token, serial, 'k', 24), marker(token, serial, 'v', 64)
+		r := &sarama.FetchResponse{}
+		r.AddMessage("t", 0, sarama.ByteEncoder(k), sarama.ByteEncoder(v), int64(serial))
+		b, marks = mustEncode(r), [][]byte{k, v}
+	case 11: // JoinGroupResponse v0, member metadata is a marker
+		m := marker(token, serial, 'j', 48)
+		r := &sarama.JoinGroupResponse{GenerationId: int32(token), GroupProtocol: "p", LeaderId: "l", MemberId: "m",
+			Members: map[string][]byte{"m": m}}
+		b, marks = mustEncode(r), [][]byte{m}
+	case 14: // SyncGroupResponse v0, the assignment is a marker
+		m := marker(token, serial, 's', 40)
+		b, marks = mustEncode(&sarama.SyncGroupResponse{MemberAssignment: m}), [][]byte{m}
+	case 15: // DescribeGroupsResponse v0, member metadata and assignment are markers
+		m1, m2 := marker(token, serial, 'd', 32), marker(token, serial, 'a', 56)
+		r := &sarama.DescribeGroupsResponse{Groups: []*sarama.GroupDescription{{GroupId: "d", State: "s", ProtocolType: "c",
+			Protocol: "p", Members: map[string]*sarama.GroupMemberDescription{"m": {ClientId: "c", ClientHost: "h",
+				MemberMetadata: m1, MemberAssignment: m2}}}}}
+		b, marks = mustEncode(r), [][]byte{m1, m2}
+	}
+	return b, marks
+}
+
+// marker is a byte field that names the request it answers: "M|<token>|<serial>|<kind>|" padded to n bytes.
+func marker(token, serial int, kind byte, n int) []byte {
+	m := []byte("M|" + strconv.Itoa(token) + "|" + strconv.Itoa(serial) + "|" + string(kind) + "|")
+	for i := 0; len(m) < n; i++ {
+		m = append(m, byte('a'+(serial+i)%26))
+	}
+	return m
+}
+
+func mustEncode(v interface{}) []byte {
+	b, err := sarama.VerifEncode(v)
+	if err != nil {
+		panic(err)
 	}
 	return b
 }
@@ -149,8 +189,8 @@ func (s *server) body(key int16, token, serial int) []byte {
 func (s *server) mkFrame(key int16, hv int, cid int32, token int) []byte {
 	s.fmu.Lock()
 	serial := len(s.frames) + 1
-	body := s.body(key, token, serial)
-	s.frames = append(s.frames, frameInfo{body: body, cid: cid, token: token})
+	body, marks := s.body(key, token, serial)
+	s.frames = append(s.frames, frameInfo{body: body, cid: cid, token: token, marks: marks})
 	s.fmu.Unlock()
 	n := 4 + len(body)
 	if hv >= 1 {
@@ -196,7 +236,7 @@ func argOf(step, name string, def int) int {
 }
 
 func isFaultStep(st string) bool {
-	for _, p := range []string{"ok", "okd", "split", "hold"} {
+	for _, p := range []string{"ok", "okd", "split", "hold", "slow"} {
 		if st == p || (strings.HasPrefix(st, p) && len(st) > len(p) && st[len(p)] >= '0' && st[len(p)] <= '9') {
 			return false
 		}
@@ -222,6 +262,14 @@ func (s *server) exec(st string) bool {
 			return false
 		}
 		time.Sleep(time.Duration(argOf(st, "okd", 1)) * time.Millisecond)
+		s.io.send(s.mkFrame(r.key, r.hv, r.cid, r.token))
+	case strings.HasPrefix(st, "slow"):
+		// slow but alive: the answer comes after <arg> percent of Net.ReadTimeout
+		r, ok := s.next()
+		if !ok {
+			return false
+		}
+		time.Sleep(time.Duration(argOf(st, "slow", 75)*s.rtMs) * time.Millisecond / 100)
 		s.io.send(s.mkFrame(r.key, r.hv, r.cid, r.token))
 	case strings.HasPrefix(st, "split"):
 		r, ok := s.next()
